@@ -186,6 +186,17 @@ def rule_maps(repo, rep, tm):
         ks = {dotted(k).split(".")[-1] for k in d.keys}
         missing = sorted(set(tt) - ks)
         rep.check(not missing, "C11-b", f"{TM}:{mapname}", f"{mapname} covers every TensorType", f"tensor types {missing} cannot be read (KeyError)")
+    # rows of the numpy view table: a sized numeric tensor type is viewed through the numpy type of the same name
+    d_np = tm.assign("datatype_map_numpy")
+    n_rows = 0
+    for k, v in zip(d_np.keys, d_np.values):
+        kn = dotted(k).split(".")[-1]
+        if re.fullmatch(r"(U?INT|FLOAT|COMPLEX)\d+", kn):
+            n_rows += 1
+            rep.check(str(norm(v)) in (f"np.{kn.lower()}", f"numpy.{kn.lower()}"), "C11-s", f"{TM}:datatype_map_numpy", f"TensorType.{kn} is viewed as np.{kn.lower()}",
+                      f"TensorType.{kn}: {str(norm(v))}: constant buffers of this type are reinterpreted (negative int16 values arrive as v + 65536; a folded QUANTIZE saturates to 32767 and the written constant data differ from the source)")
+    if n_rows < 10:
+        raise AnalysisError(f"datatype_map_numpy: {n_rows} sized numeric rows")
     bopt = enum_of(repo, "tflite.BuiltinOptions", "BuiltinOptions")
     d = tm.assign("builtin_options_map")
     ks = {dotted(k).split(".")[-1] for k in d.keys}
@@ -795,6 +806,7 @@ def rule_round5(repo, rep):
         raise AnalysisError(f"quantisation aliases: only {n_al} found")
     rep.check(True, "C11-i", "ethosu/vela", f"{n_al} local aliases of quantisation records are read only", "")
     rep.floor("C11-i", 4)
+    rep.clause("C11-s", "constant buffers are viewed through the numpy type that has the name of their tensor type (no reinterpretation of the written constant data)")
     rep.clause("C11-r", "the writer restores the source tensor of an operand only if the operand is a constant (computed operands keep the tensor the graph produces)")
     rule_src_tensor_restore(repo, rep)
     rep.clause("C11-q", "every option member the serialiser produced is added to the table unconditionally (an omitted field reads back as the schema default, not as the falsy value)")
